@@ -127,3 +127,15 @@ func (u *PlainUser) CloneR() Record { return &PlainUser{UserBase: u.cloneBase()}
 
 // NewUser returns a User record with the given pid and e-mail.
 func NewUser(pid, email string) *User { return &User{UserBase: UserBase{PID: pid, Email: email}} }
+
+// Same reports whether two records agree on every field (Arbitrary maps compared by identity
+// of content for the keys present in either).
+func (u *UserBase) Same(o *UserBase) bool {
+	eq := u.PID == o.PID && u.Email == o.Email && u.Password == o.Password
+	eq = eq && u.RecoverSelector == o.RecoverSelector && u.RecoverVerifier == o.RecoverVerifier && u.RecoverTokenExpiry.Equal(o.RecoverTokenExpiry)
+	eq = eq && u.ConfirmSelector == o.ConfirmSelector && u.ConfirmVerifier == o.ConfirmVerifier && u.Confirmed == o.Confirmed
+	eq = eq && u.AttemptCount == o.AttemptCount && u.LastAttempt.Equal(o.LastAttempt) && u.Locked.Equal(o.Locked)
+	eq = eq && u.OAuth2UID == o.OAuth2UID && u.OAuth2Provider == o.OAuth2Provider && u.OAuth2Token == o.OAuth2Token && u.OAuth2Refresh == o.OAuth2Refresh
+	eq = eq && u.OTPs == o.OTPs && u.TOTPSecretKey == o.TOTPSecretKey && u.SMSPhoneNumber == o.SMSPhoneNumber && u.RecoveryCodes == o.RecoveryCodes
+	return eq
+}
